@@ -35,16 +35,16 @@ def gen(chk, mpmath, rng):
     mp = mpmath.mp
     # every integer argument up to 1.4 p at a fixed high precision (the integer-argument code has cut-offs at multiples of the
     # precision).  Done first, in the fresh process: mpf_zeta_int memoises high-precision values, and riemannr / primezeta below fill that memo
-    for P in chk.pick([rng.choice([420, 500, 560])], [300, 520, 900, 1500, 2600]):
+    for P in chk.pick([rng.choice([420, 500, 560])], [300, 520, 900, 1500]):
         step = 1 if P <= 600 else P // 300
         off = rng.randint(0, step - 1) if step > 1 else 0
         grid = [Fr(n) for n in range(2 + off, int(1.4 * P), step)]
         for fname in ("zeta", "altzeta"):
             for item in sf.sweep(mpmath, fname + "-int", sf.F1(fname), grid, P, 8, PROP):
                 yield item
-    for item in sf.samereal(chk, mpmath, rng, TABLE, 8, chk.pick(200, 10000), PROP, hiprec=0.08):
+    for item in sf.samereal(chk, mpmath, rng, TABLE, 8, chk.pick(200, 3000), PROP, hiprec=0.08):
         yield item
-    for i in range(chk.pick(200, 6000)):
+    for i in range(chk.pick(200, 2500)):
         p = rng.choice([20, 53, 53, 100, 200]); mp.prec = p
         c = rng.random()
         try:
